@@ -234,8 +234,9 @@ def main(chk):
                        "arguments (open finding), arguments / keywords / literals spread over several lines (also after 1100 spaces or tabs), lonely chains on nil "
                        "receivers, arrays of 60 objects whose S / == / <=> print, seeded random "
                        "nestings to depth 3; each program evaluated %d times in one process and in %d further process(es); all runs must "
-                       "agree with each other, with source order (marker oracle) and with PanCore. stdin-reading sub-expressions (`<>`) "
-                       "are not modelled and not generated." % (R, P))
+                       "agree with each other, with source order (marker oracle) and with PanCore. Three programs read standard input (`<>`) in an outer "
+                       "chain and inside its block (hand-derived output; the model does not implement `<>` and discards them). Added after seeded round 6: "
+                       "printing of objects / maps whose keys differ only in case or print alike, receiver before the function literal of a literal call." % (R, P))
     for i in (0, len(progs) // 2, len(progs) - 1):
         chk.sample({"program": progs[i], "expected_out": cases[i][1], "impl_out": res[i]["impl"].get("out"),
                     "model_verdict": res[i]["verdict"]})
